@@ -181,7 +181,14 @@ func l3Run(script *c17l3Script, k, k2, calibClient int) (out l3Outcome) {
 	deadline := time.Now().Add(20 * time.Second)
 	// a real watchdog: blocking waits are only interrupted by events, so make one
 	wdFired := false
-	wd := time.AfterFunc(25*time.Second, func() { wdFired = true; syscall.Kill(cmd.Process.Pid, syscall.SIGKILL) })
+	wdDiag := ""
+	wd := time.AfterFunc(25*time.Second, func() {
+		wdFired = true
+		if os.Getenv("VERIF_L3_DEBUG") != "" {
+			wdDiag = l3Diag(cmd.Process.Pid)
+		}
+		syscall.Kill(cmd.Process.Pid, syscall.SIGKILL)
+	})
 	defer wd.Stop()
 	// reapAll consumes the exit notifications of every thread of the traced process: a
 	// traced thread stays a zombie until its tracer waits for it, and the thread-group
@@ -203,7 +210,7 @@ func l3Run(script *c17l3Script, k, k2, calibClient int) (out l3Outcome) {
 	}
 	kill := func(why string) {
 		syscall.Kill(t.pid, syscall.SIGKILL)
-		out.Inconcl = why
+		out.Inconcl = why + wdDiag
 		reapAll()
 	}
 	var st syscall.WaitStatus
@@ -288,30 +295,44 @@ func l3Run(script *c17l3Script, k, k2, calibClient int) (out l3Outcome) {
 	// requests a cooperative preemption, which makes the next Go function prologue detour
 	// through the runtime and execute again, so that library instruction counts would
 	// depend on wall-clock timing.
+	// holdOthers freezes the runtime's monitor thread (the one sleeping in nanosleep) and
+	// nothing else: the other threads must stay free so that a client which the
+	// scheduler deschedules (a preemption request that was already pending) can be put
+	// back on its thread instead of waiting forever.
 	holdOthers := func() bool {
 		t.holding = true
-		ents, err := os.ReadDir(fmt.Sprintf("/proc/%d/task", t.pid))
-		if err != nil {
-			return false
-		}
-		want := map[int]bool{}
-		for _, e := range ents {
-			var tid int
-			fmt.Sscan(e.Name(), &tid)
-			if tid != 0 && tid != t.tid[0] && tid != t.tid[1] && !t.held[tid] {
-				if syscall.Tgkill(t.pid, tid, syscall.SIGSTOP) == nil {
-					want[tid] = true
+		for try := 0; try < 60; try++ {
+			ents, err := os.ReadDir(fmt.Sprintf("/proc/%d/task", t.pid))
+			if err != nil {
+				return false
+			}
+			want := map[int]bool{}
+			for _, e := range ents {
+				var tid int
+				fmt.Sscan(e.Name(), &tid)
+				if tid == 0 || tid == t.tid[0] || tid == t.tid[1] || t.held[tid] {
+					continue
+				}
+				sc, _ := os.ReadFile(fmt.Sprintf("/proc/%d/task/%d/syscall", t.pid, tid))
+				if strings.HasPrefix(string(sc), "35 ") { // nanosleep: runtime.usleep, i.e. sysmon
+					if syscall.Tgkill(t.pid, tid, syscall.SIGSTOP) == nil {
+						want[tid] = true
+					}
 				}
 			}
-		}
-		return pump(func() bool {
-			for tid := range want {
-				if !t.held[tid] {
-					return false
-				}
+			if len(want) > 0 {
+				return pump(func() bool {
+					for tid := range want {
+						if !t.held[tid] {
+							return false
+						}
+					}
+					return true
+				})
 			}
-			return true
-		})
+			time.Sleep(500 * time.Microsecond)
+		}
+		return true // no monitor thread found sleeping: carry on (instruction counts may then vary slightly)
 	}
 	releaseOthers = func() {
 		t.holding = false
@@ -463,6 +484,43 @@ func l3Run(script *c17l3Script, k, k2, calibClient int) (out l3Outcome) {
 	out.Steps = t.steps
 	finish()
 	return
+}
+
+// l3Diag describes what every thread of a stuck traced process is doing (debug only).
+func l3Diag(pid int) string {
+	f, err := elf.Open("/proc/self/exe")
+	if err != nil {
+		return ""
+	}
+	defer f.Close()
+	syms, _ := f.Symbols()
+	sort.Slice(syms, func(i, j int) bool { return syms[i].Value < syms[j].Value })
+	lookup := func(pc uint64) string {
+		i := sort.Search(len(syms), func(i int) bool { return syms[i].Value > pc })
+		if i > 0 && pc < syms[i-1].Value+syms[i-1].Size {
+			return fmt.Sprintf("%s+%#x", syms[i-1].Name, pc-syms[i-1].Value)
+		}
+		return fmt.Sprintf("%#x", pc)
+	}
+	var b strings.Builder
+	ents, _ := os.ReadDir(fmt.Sprintf("/proc/%d/task", pid))
+	for _, e := range ents {
+		sc, _ := os.ReadFile(fmt.Sprintf("/proc/%d/task/%s/syscall", pid, e.Name()))
+		st, _ := os.ReadFile(fmt.Sprintf("/proc/%d/task/%s/stat", pid, e.Name()))
+		fields := strings.Fields(string(sc))
+		where := ""
+		if len(fields) >= 2 {
+			var pc uint64
+			fmt.Sscanf(fields[len(fields)-1], "0x%x", &pc)
+			where = lookup(pc)
+		}
+		state := ""
+		if sf := strings.Fields(string(st)); len(sf) > 2 {
+			state = sf[2]
+		}
+		fmt.Fprintf(&b, " [tid %s state %s syscall %s at %s]", e.Name(), state, strings.Join(fields[:min(len(fields), 1)], ""), where)
+	}
+	return b.String()
 }
 
 // l3Request is what an isolated tracer process is asked to do.
